@@ -105,7 +105,8 @@ def early(
             background_tasks.add(task)
             task.add_done_callback(background_tasks.discard)
             if not background:
-                await task
+                # the caller waited for the refresh: give it the fresh result, the old one may be past its ttl by now
+                return await task
             return return_or_raise(result)
 
         return _wrap  # type: ignore[return-value]
